@@ -127,7 +127,9 @@ class Hist:
         return i
 
     def finreset(self, slot):
-        i = self.emit("finreset %d" % slot)
+        # `finreset` = in-place finalize_into_dirty + reset (FixedOutput::finalize_fixed_reset /
+        # finalize_into_reset); `finreset2` = digest 0.9's Digest::finalize_reset (finalizes a clone)
+        i = self.emit("%s %d" % ("finreset" if self.rng.below(3) else "finreset2", slot))
         # must equal a non-destructive fin of a one-shot replay
         if self.rng.below(3) == 0:
             self.emit("new %d %s" % (SCRATCH, self.arg))
@@ -180,7 +182,11 @@ class Hist:
                     self.count("fin_after_reset")
             elif k < 17:
                 self.finreset(s)
-                # reuse
+                # reuse; sometimes finalize the EMPTY message in place first (a reset that is skipped
+                # "because nothing was absorbed" shows only then)
+                if rng.below(4) == 0:
+                    self.finreset(s)
+                    self.count("finreset_of_empty")
                 if rng.below(4) != 0:
                     self.update(s)
                     self.fin(s)
@@ -205,7 +211,7 @@ class Hist:
         self.emit("update %d %s" % (slots[1], hx(data[cut:])))
         self.bytes[slots[1]] += data
         a = self.emit("fin %d" % slots[0])
-        c = self.emit("finreset %d" % slots[1])
+        c = self.emit("%s %d" % ("finreset" if self.rng.below(2) else "finreset2", slots[1]))
         self.bytes[slots[1]] = bytearray()
         self.checks.append((a, c))
 
